@@ -189,6 +189,8 @@ func (c *FnCtx) loopModifies(p *Path, fr *frame, li *loopInfoT, lc *LoopContract
 						}
 					} else if _, ok := root.(*ssa.Alloc); ok && !top {
 						continue
+					} else if top {
+						ref = invariantRef(fr, root, blocks)
 					}
 					add(prefix, ref)
 				case *ssa.MapUpdate:
@@ -204,7 +206,10 @@ func (c *FnCtx) loopModifies(p *Path, fr *frame, li *loopInfoT, lc *LoopContract
 			}
 		}
 	}
+	c.curLoopFrame = []*frame{fr}
+	c.curLoopBlocks = li.body
 	scanFn(fr.fn, li.body, true)
+	c.curLoopFrame = nil
 	return out
 }
 
@@ -240,8 +245,14 @@ func (c *FnCtx) callModifies(call *ssa.CallCommon, in *ssa.Function, add func(pr
 			}
 			return
 		case strings.HasPrefix(name, "sync/atomic."):
-			prefix, _ := staticKey(call.Args[0])
-			add(prefix, "")
+			if !strings.HasPrefix(name, "sync/atomic.Load") {
+				prefix, root := staticKey(call.Args[0])
+				ref := ""
+				if in == c.fn && len(c.curLoopFrame) > 0 {
+					ref = invariantRef(c.curLoopFrame[0], root, c.curLoopBlocks)
+				}
+				add(prefix, ref)
+			}
 			return
 		}
 		if isHeliosPkg(pkgOf(fn)) {
@@ -271,8 +282,8 @@ func (c *FnCtx) callModifies(call *ssa.CallCommon, in *ssa.Function, add func(pr
 			add("*", "")
 			continue
 		}
-		if strings.HasPrefix(m, "elems(") {
-			add("[]", "")
+		if strings.HasPrefix(m, "elems(") || strings.HasPrefix(m, "mapof(") {
+			add("*", "")
 			continue
 		}
 		for _, pre := range c.widenLoc(fc, fn, call, m) {
@@ -386,4 +397,26 @@ func staticKey(v ssa.Value) (string, ssa.Value) {
 		return pointeeKey(pt.Elem()), v
 	}
 	return "cell:?", v
+}
+
+// invariantRef: when the object an address is rooted at is computed outside the loop, the havoc can be
+// restricted to that object.
+func invariantRef(fr *frame, root ssa.Value, blocks map[*ssa.BasicBlock]bool) string {
+	if _, isIdx := root.(*ssa.IndexAddr); isIdx {
+		return ""
+	}
+	switch r := root.(type) {
+	case *ssa.Parameter, *ssa.FreeVar:
+		if v, ok := fr.regs[r]; ok && v.K == KPtr && v.Idx == "" {
+			return v.T
+		}
+	case ssa.Instruction:
+		if blocks != nil && blocks[r.Block()] {
+			return ""
+		}
+		if v, ok := fr.regs[root]; ok && v.K == KPtr && v.Idx == "" {
+			return v.T
+		}
+	}
+	return ""
 }
